@@ -36,6 +36,8 @@ type c05Spec struct {
 	NPipes int    `json:"npipes"`
 	NOps   int    `json:"nops"`
 	TTL    int    `json:"ttl"`
+	NDev   int    `json:"ndev,omitempty"` // devices between the requesters and the replier
+	Tr     string `json:"tr,omitempty"`   // transport of each device hop, comma separated
 }
 
 func TestMain(m *testing.M) { hx.Main(m) }
@@ -63,9 +65,36 @@ func TestC05(t *testing.T) {
 	for i := 0; i < nraw/6; i++ {
 		cases = append(cases, mon.CaseSpec{Name: "cookedtimeout", Spec: c05Spec{Proto: cooked[i%2], Mode: "cookedtimeout", NCtx: (i / 2) % 2, TTL: pickTTL(rnd, 2)}})
 	}
+	// replies that have to travel back through a chain of devices (see newRigVia): the seq and conc
+	// scripts with the requesters 1-3 (thorough: up to 5) devices away from the replier
+	nchain := r.Pick(200, 3000)
+	for i := 0; i < nchain; i++ {
+		mode, nops := "seq", 12+rnd.Intn(19)
+		if i%5 >= 3 {
+			mode, nops = "conc", 16+rnd.Intn(25)
+		}
+		ndev := 1 + rnd.Intn(3)
+		if r.Thorough() && rnd.Intn(4) == 0 {
+			ndev = 4 + rnd.Intn(2)
+		}
+		cases = append(cases, mon.CaseSpec{Name: "chain" + mode, Spec: c05Spec{Proto: cooked[i%2], Mode: mode, NCtx: 1 + rnd.Intn(4), NPipes: 1 + rnd.Intn(4), NOps: nops,
+			TTL: chainTTL(rnd, ndev), NDev: ndev, Tr: pickHops(rnd, ndev)}})
+	}
+	// a Recv that fails between receiving a request and answering it
+	nrf := r.Pick(200, 3000)
+	for i := 0; i < nrf; i++ {
+		ndev := 0
+		if rnd.Intn(5) == 0 {
+			ndev = 1 + rnd.Intn(2)
+		}
+		cases = append(cases, mon.CaseSpec{Name: "recvfail", Spec: c05Spec{Proto: cooked[i%2], Mode: "recvfail", NCtx: 1 + rnd.Intn(4), NPipes: 1 + rnd.Intn(4), NOps: 2 + rnd.Intn(4),
+			TTL: chainTTL(rnd, ndev), NDev: ndev, Tr: pickHops(rnd, ndev)}})
+	}
 	r.Run(cases, func(c *mon.Case) {
 		sp := c.Spec.(c05Spec)
 		switch sp.Mode {
+		case "recvfail":
+			c05RecvFail(c, sp)
 		case "cookedtimeout":
 			c05CookedTimeout(c, sp)
 		case "seq":
@@ -110,6 +139,29 @@ func pickTTL(rnd *rand.Rand, min int) int {
 	return min + rnd.Intn(9-min)
 }
 
+// chainTTL: a hop limit that leaves room for 1-8 (sometimes many more) words of the requester's own
+// routing header on top of the ndev words the devices add.
+func chainTTL(rnd *rand.Rand, ndev int) int {
+	t := ndev + pickTTL(rnd, 1)
+	if t > 255 {
+		t = 255
+	}
+	return t
+}
+
+// pickHops: the transport of each device hop; mostly inproc, one in four hops a real one.
+func pickHops(rnd *rand.Rand, ndev int) string {
+	var hops []string
+	for k := 0; k < ndev; k++ {
+		tr := "inproc"
+		if rnd.Intn(4) == 0 {
+			tr = hx.Transports[1+rnd.Intn(len(hx.Transports)-1)]
+		}
+		hops = append(hops, tr)
+	}
+	return strings.Join(hops, ",")
+}
+
 func errName(err error) string {
 	if err == nil {
 		return "nil"
@@ -121,7 +173,8 @@ func errName(err error) string {
 
 type seqCtx struct {
 	pending     *reqSt // last received, not yet answered
-	afterFailed bool   // a Recv failed since (whether the request is still "pending" is not specified)
+	afterFailed bool   // a Recv failed since
+	nfailed     int    // how many
 }
 
 type seqRun struct {
@@ -133,6 +186,9 @@ type seqRun struct {
 	multi int // Sends performed while >= 2 contexts held requests from different connections
 	deep  int // replies with a routing header of depth >= 1
 	inflt int // drops between Recv and Send
+
+	afterFail int // replies accepted after a failed Recv on the context
+	gaveUp    int // respondent: Sends refused after a failed Recv on the context
 }
 
 func (s *seqRun) note(f string, a ...interface{}) {
@@ -173,9 +229,9 @@ func (s *seqRun) inject() *reqSt {
 	if p == nil {
 		return nil
 	}
-	d := s.c.Rand.Intn(s.sp.TTL)
+	d := s.c.Rand.Intn(s.r.depthLimit())
 	if s.c.Rand.Intn(4) == 0 {
-		d = s.sp.TTL - 1 // the deepest header still within the hop limit
+		d = s.r.depthLimit() - 1 // the deepest header still within the hop limit
 	}
 	q := s.r.inject(p, d, false)
 	s.note("i%d/%d", p.n, d)
@@ -213,6 +269,7 @@ func (s *seqRun) recv(i int, deadline time.Duration) bool {
 			c.Count("recv_timeouts", 1)
 			if s.st[i].pending != nil {
 				s.st[i].afterFailed = true
+				s.st[i].nfailed++
 			}
 			return true
 		}
@@ -252,9 +309,13 @@ func (s *seqRun) drop(p *pipeSt, point string, wait bool) {
 	r.dropPipe(p)
 	c.Count("drops_"+point, 1)
 	s.note("d%d", p.n)
-	if wait && unrecv == 0 {
+	if (wait && unrecv == 0) || r.ndev > 0 {
 		// every request of p was received, so p's receiver is (going back to) reading the
-		// connection and must notice the close; continue only once the socket detached it
+		// connection and must notice the close; continue only once the socket detached it.
+		// Behind devices p's receiver always gets back to reading (the forwarder drains its queue),
+		// and the wait is not optional: a reply that meets the connection while the raw front socket
+		// is still detaching it makes SendMsg fail, on which mangos.Device stops forwarding (as
+		// documented) — not a situation this property speaks about.
 		c.AwaitOrViolate(r.proto+"/dropped-connection-not-detached", fmt.Sprintf("pipe %d detaching after peer close", p.n), func() bool { return r.detached(p.id) }, mon.AwaitOpts{})
 		c.Count("drops_waited_detach", 1)
 	}
@@ -293,7 +354,8 @@ func (s *seqRun) send(i int, dropAfter bool) bool {
 	r.mu.Lock()
 	a.err, a.returned = err, true
 	r.mu.Unlock()
-	cx.pending, cx.afterFailed = nil, false
+	nfailed := cx.nfailed
+	cx.pending, cx.afterFailed, cx.nfailed = nil, false, 0
 	c.Count("sends", 1)
 	switch {
 	case q == nil:
@@ -305,12 +367,20 @@ func (s *seqRun) send(i int, dropAfter bool) bool {
 		c.Count("send_protostate_observed", 1)
 		return true
 	case a.afterFailed && err == mangos.ErrProtoState:
-		// the failed Recv discarded the pending request (respondent does, rep does not)
 		r.mu.Lock()
 		a.req = nil
 		r.mu.Unlock()
-		c.Count("send_after_failed_recv_protostate", 1)
 		s.note("s%d?", i)
+		if r.kind != "respondent" {
+			// a Recv that failed delivered nothing: the context's last received request is still the
+			// one received before it, and the reply answers that one
+			c.Violate(r.proto+"/pending-request-lost-by-failed-recv", "ctx %d received request %d (connection %d, dropped=%v), then %d Recv(s) on it failed (receive deadline), then Send returned %v: the request received last was not answered", i, q.serial, q.pipe.n, a.dropBefore, nfailed, err)
+			return false
+		}
+		// a respondent context gives up the survey it holds as soon as it asks for the next one
+		// (RecvMsg clears it on entry, whether or not another survey arrives): counted, not judged
+		c.Count("respondent_send_after_failed_recv_protostate", 1)
+		s.gaveUp++
 		return true
 	case a.dropBefore:
 		s.note("s%dx", i)
@@ -327,12 +397,13 @@ func (s *seqRun) send(i int, dropAfter bool) bool {
 	}
 	if a.afterFailed {
 		c.Count("send_after_failed_recv_answered", 1)
+		s.afterFail++
 	}
 	if q.depth >= 1 {
 		s.deep++
 	}
 	s.note("s%d>%d", i, q.pipe.n)
-	if dropAfter {
+	if dropAfter && r.ndev == 0 {
 		s.drop(q.pipe, "after_send", false)
 		return true
 	}
@@ -340,7 +411,7 @@ func (s *seqRun) send(i int, dropAfter bool) bool {
 }
 
 func c05Seq(c *mon.Case, sp c05Spec) {
-	r := newRig(c, sp.Proto, sp.NCtx, sp.NPipes, sp.TTL)
+	r := newRigVia(c, sp.Proto, sp.NCtx, sp.NPipes, sp.TTL, sp.NDev, sp.Tr)
 	if c.Failed() || c.Undecided() {
 		return
 	}
@@ -425,13 +496,31 @@ func c05Seq(c *mon.Case, sp c05Spec) {
 			s.recv(rnd.Intn(sp.NCtx), time.Duration(4+rnd.Intn(8))*time.Millisecond)
 		}
 	}
-	// flush round: one more request/reply on every open connection
+	if !s.flush() {
+		return
+	}
+	r.finalCheck()
+	if r.checked > 0 && (s.multi > 0 || s.deep > 0 || s.inflt > 0) {
+		c.Nontrivial()
+	}
+	c.Count("sends_with_requests_from_2+_connections_pending", s.multi)
+	if sp.NDev > 0 {
+		c.Count("replies_verified_behind_devices", r.checked)
+		c.Count(fmt.Sprintf("replies_verified_behind_%d_devices", sp.NDev), r.checked)
+	}
+	c.Sig("%s|seq|%d|%d|%d|%d%s|%s", sp.Proto, sp.NCtx, sp.NPipes, sp.TTL, sp.NDev, sp.Tr, strings.Join(s.ops, " "))
+}
+
+// flush round: one more request/reply on every open connection, after which no connection's
+// (sequential) sender can still hold an earlier reply.  False when the case is already decided.
+func (s *seqRun) flush() bool {
+	c, r := s.c, s.r
 	if !c.Failed() && !c.Undecided() {
 		var fl []*reqSt
 		for _, p := range r.livePipes() {
 			fl = append(fl, r.inject(p, 0, true))
 		}
-		f := rnd.Intn(sp.NCtx)
+		f := c.Rand.Intn(s.sp.NCtx)
 		for guard := 0; guard < 4096; guard++ {
 			left := 0
 			for _, q := range fl {
@@ -449,20 +538,15 @@ func c05Seq(c *mon.Case, sp c05Spec) {
 	}
 	if c.Failed() || c.Undecided() {
 		r.scanAll()
-		return
+		return false
 	}
-	r.finalCheck()
-	if r.checked > 0 && (s.multi > 0 || s.deep > 0 || s.inflt > 0) {
-		c.Nontrivial()
-	}
-	c.Count("sends_with_requests_from_2+_connections_pending", s.multi)
-	c.Sig("%s|seq|%d|%d|%d|%s", sp.Proto, sp.NCtx, sp.NPipes, sp.TTL, strings.Join(s.ops, " "))
+	return true
 }
 
 // ---- concurrent: one goroutine per context answering whatever it receives ----------
 
 func c05Conc(c *mon.Case, sp c05Spec) {
-	r := newRig(c, sp.Proto, sp.NCtx, sp.NPipes, sp.TTL)
+	r := newRigVia(c, sp.Proto, sp.NCtx, sp.NPipes, sp.TTL, sp.NDev, sp.Tr)
 	if c.Failed() || c.Undecided() {
 		return
 	}
@@ -550,7 +634,9 @@ func c05Conc(c *mon.Case, sp c05Spec) {
 	for op := 0; op < sp.NOps; op++ {
 		lp := r.livePipes()
 		switch x := rnd.Intn(100); {
-		case x < 8 && len(lp) > 0 && injected > 0:
+		case x < 8 && len(lp) > 0 && injected > 0 && r.ndev == 0:
+			// (not behind devices: a reply in flight that meets its connection while the raw front
+			// socket is detaching it makes mangos.Device stop forwarding, see seqRun.drop)
 			p := lp[rnd.Intn(len(lp))]
 			r.dropPipe(p)
 			drops++
@@ -567,7 +653,7 @@ func c05Conc(c *mon.Case, sp c05Spec) {
 				continue
 			}
 			p := lp[rnd.Intn(len(lp))]
-			d := rnd.Intn(sp.TTL)
+			d := rnd.Intn(r.depthLimit())
 			r.inject(p, d, false)
 			injected++
 		}
@@ -644,7 +730,11 @@ func c05Conc(c *mon.Case, sp c05Spec) {
 		c.Nontrivial()
 	}
 	c.Count("contexts_that_answered", used)
-	c.Sig("%s|conc|%d|%d|%s", sp.Proto, sp.NCtx, sp.TTL, shape)
+	if sp.NDev > 0 {
+		c.Count("replies_verified_behind_devices", r.checked)
+		c.Count(fmt.Sprintf("replies_verified_behind_%d_devices", sp.NDev), r.checked)
+	}
+	c.Sig("%s|conc|%d|%d|%d%s|%s", sp.Proto, sp.NCtx, sp.TTL, sp.NDev, sp.Tr, shape)
 	_ = vt.Addr
 }
 
